@@ -576,24 +576,7 @@ func checkC15(p *Prog, res *Result, tier string) {
 		}
 	}
 	// ---- R5: the oracle's error is preserved by the lock operations ----
-	{
-		ep := p.ssaPkg("pkg/backend/election")
-		checkErrorPreservation(p, res, "C15-R5",
-			func(f *ssa.Function) bool { return f.Pkg == ep },
-			func(c ssa.CallInstruction) (string, bool) {
-				if c.Common().IsInvoke() && c.Common().Method == r.KVGetTSO {
-					return "storage.GetTimestampOracle", true
-				}
-				if sc := c.Common().StaticCallee(); sc != nil && sc.Pkg == ep && sc.Blocks != nil && errorResultIndex(sc.Signature) >= 0 {
-					for _, c2 := range callsIn(sc) {
-						if c2.Common().IsInvoke() && c2.Common().Method == r.KVGetTSO {
-							return funcName(sc), true
-						}
-					}
-				}
-				return "", false
-			}, "the new leader would seed its revision counters from a timestamp that was never read (0 or stale) and hand out revisions the old leader already used")
-	}
+	checkOracleErrorPreserved(p, r, res, "C15-R5")
 
 	// ---- R6: the engine's oracle is fresh (C11-R6) ----
 	{
@@ -869,7 +852,38 @@ func checkLeaderStart(p *Prog, r *Roles, res *Result, rule string) {
 					return ok && dc.Common().IsInvoke() && dc.Common().Method.Name() == "Describe"
 				})
 			})
-			if okProv {
+			// .. on every success return of the helper that hands it back: a return with a nil error and some other
+			// version (a constant 0 for "no holder") would seed the counters with it
+			parsed := func(x ssa.Value) bool {
+				return derivesFromCallArgs(p, x, func(v ssa.Value) bool {
+					pc, ok := v.(*ssa.Call)
+					if !ok || pc.Common().StaticCallee() == nil || pc.Common().StaticCallee().Name() != "ParseUint" || len(pc.Common().Args) == 0 {
+						return false
+					}
+					return derivesFromCallArgs(p, pc.Common().Args[0], func(w ssa.Value) bool {
+						dc, ok := w.(*ssa.Call)
+						return ok && dc.Common().IsInvoke() && dc.Common().Method.Name() == "Describe"
+					})
+				})
+			}
+			badRet := ""
+			if hc, idx, ok := extractOf(argForSigParam(setCur, 0)); ok {
+				if h := hc.Common().StaticCallee(); h != nil && h.Blocks != nil && errorResultIndex(h.Signature) >= 0 {
+					ei := errorResultIndex(h.Signature)
+					for _, b := range h.Blocks {
+						ret, isRet := b.Instrs[len(b.Instrs)-1].(*ssa.Return)
+						if !isRet || idx >= len(ret.Results) || !isNilConst(resolve(ret.Results[ei])) {
+							continue
+						}
+						if !parsed(ret.Results[idx]) {
+							badRet = p.pos(ret.Pos())
+						}
+					}
+				}
+			}
+			if okProv && badRet != "" {
+				res.bad(rule, construct, badRet, "the helper that parses the lock's description also returns successfully with a version that is not parsed from it (a constant): a node that becomes leader on that path seeds its counters with that value and hands out revisions the store already contains")
+			} else if okProv {
 				res.ok(rule, construct, p.pos(setCur.Pos()), "strconv.ParseUint of a part of resourcelock.Describe()")
 			} else {
 				res.bad(rule, construct, p.pos(setCur.Pos()), "the revision the new leader starts from does not derive from the lock's description (engine timestamp)")
@@ -877,4 +891,24 @@ func checkLeaderStart(p *Prog, r *Roles, res *Result, rule string) {
 		}
 	}
 
+}
+
+// checkOracleErrorPreserved (C15-R5, imported as C02-R6): a failed read of the engine timestamp fails the lock operation.
+func checkOracleErrorPreserved(p *Prog, r *Roles, res *Result, rule string) {
+	ep := p.ssaPkg("pkg/backend/election")
+	checkErrorPreservation(p, res, rule,
+		func(f *ssa.Function) bool { return f.Pkg == ep },
+		func(c ssa.CallInstruction) (string, bool) {
+			if c.Common().IsInvoke() && c.Common().Method == r.KVGetTSO {
+				return "storage.GetTimestampOracle", true
+			}
+			if sc := c.Common().StaticCallee(); sc != nil && sc.Pkg == ep && sc.Blocks != nil && errorResultIndex(sc.Signature) >= 0 {
+				for _, c2 := range callsIn(sc) {
+					if c2.Common().IsInvoke() && c2.Common().Method == r.KVGetTSO {
+						return funcName(sc), true
+					}
+				}
+			}
+			return "", false
+		}, "the new leader would seed its revision counters from a timestamp that was never read (0 or stale) and hand out revisions the old leader already used")
 }
